@@ -451,3 +451,25 @@ x = VectorVariable("x", 3)
 for p in [0.5, -1, 2, 3.0]:
     e = VectorPowerSum(x, p); e._hash = None
     print(p, "degree:", e.degree, "second read:", e.degree, "is_linear:", e.is_linear())
+import numpy as np, warnings; warnings.simplefilter("ignore")
+from optyx import *
+from optyx.core.autodiff import gradient
+from optyx.core.compiler import compile_expression
+from optyx.core.vectors import VectorPowerSum
+y = Variable("y"); x = VectorVariable("x", 3)
+for fn in [atan, asin, acos, asinh, acosh, atanh, log2, log10, sin]:
+    e = fn(y*0.5)
+    for i in range(450): e = e + y
+    try:
+        g = gradient(e, y); print("D18", fn.__name__, "ok", g.evaluate({"y": 0.3}))
+    except Exception as ex:
+        print("D18", fn.__name__, "RAISED", type(ex).__name__, str(ex)[:60])
+ps = VectorPowerSum(x, 2); ps._hash = None
+for name, leaf in [("VectorPowerSum", ps), ("VectorSum", x.sum()), ("L2Norm", x.norm()), ("QuadraticForm", x.dot(np.eye(3) @ x)), ("VES", (x*x).sum())]:
+    e = leaf
+    for i in range(450): e = e + y
+    V = list(x) + [y]
+    try:
+        f = compile_expression(e, V); print("D19", name, "ok", f(np.array([1.,2.,3.,0.5])))
+    except Exception as ex:
+        print("D19", name, "RAISED", type(ex).__name__, str(ex)[:60])
